@@ -124,6 +124,17 @@ CLAIMED = {
         "abstract evaluation of the helper code into rational forms with opaque min/max atoms + structural transfer rules",
         "other",
     ),
+    "C04": (
+        "Decides for all inputs: each reported contribution is the optimiser's variable (or supply constant) of that food, in "
+        "the to-humans slot, times the factor that equals its coefficient in the LP's consumption sum (so contribution% = the "
+        "term the LP sums); the headline is the min-nutrient value of the sum of exactly the nine unrounded contributions; the "
+        "floor c x optimum <= consumed[m], c >= 0.9999, is added for every month before both tie-breaking solves, which run on "
+        "that model or a copy; each CSV column is the unmodified kcal-equivalent series of its food; the crop split adds up in "
+        "both arms. Not decided: solver tolerance; equality of the 3-decimal rounded display values with the headline.",
+        "PuLP model.copy() shares variables; CBC respects the floor within tolerance. " + TRUST,
+        "slot/positional provenance over the ast, symbolic evaluation of the conversion helpers, constraint-template coefficients",
+        "other",
+    ),
 }
 
 NOT_APPLICABLE = {
